@@ -18,7 +18,7 @@ add(_c('tmove', defines=['NDEBUG', 'VT_MOVE_NOEXCEPT=0'],
        facts={'MOVE_NOEXCEPT': 0, 'COPYABLE': 1, 'RELOCATE_WITH_MOVE': 0, 'POCCA': 0, 'POCMA': 0, 'POCS': 0, 'ALWAYS_EQUAL': 0}))
 
 ALLOC_ONLY = ['svb_copy_assign__pcsvb', 'svb_copy_assign_default__pcsvb', 'svb_move_assign__psvb', 'svb_move_assign_default__psvb', 'svb_swap__psvb',
-              'svb_ctor__psvb', 'svb_ctor__psvb_pcA', 'svb_ctor__pcsvb', 'svb_ctor__pcsvb_pcA', 'sv_swap', 'sv_assign__psv', 'sv_assign__pcsv', 'sv_get_allocator']
+              'svb_ctor__psvb', 'svb_ctor__psvb_pcA', 'svb_ctor__pcsvb', 'svb_ctor__pcsvb_pcA', 'sv_swap', 'sv_assign__psv', 'sv_op_assign__psv', 'sv_ctor__psv', 'sv_assign__pcsv', 'sv_get_allocator']
 
 def _alloc_cfg(name, pocca, pocma, pocs, ae, **kw):
     defs = ['NDEBUG', 'VT_POCCA=%d' % pocca, 'VT_POCMA=%d' % pocma, 'VT_POCS=%d' % pocs, 'VT_ALWAYS_EQUAL=%d' % ae]
@@ -45,9 +45,9 @@ add(_c('pair_lt', N=3, M=2, only=PAIR_ONLY, facts=dict(_PF, M_LT_N=1, M_GT_N=0))
 add(_c('pair_gt', N=3, M=5, only=PAIR_ONLY, facts=dict(_PF, M_LT_N=0, M_GT_N=1)))      # ... larger
 
 # inline capacity 0: no inline buffer at all (zero-capacity specialisation of small_vector_data)
-N0_QUICK = ['svb_append_element__pcE', 'svb_append_copies', 'svb_shrink_to_size', 'svb_resize_with__ul_pcE', 'svb_move_assign_default__psvb', 'svb_move_assign__psvb', 'svb_swap__psvb', 'svb_ctor__psvb', 'svb_ctor__ul_pcE_pcA', 'svb_dtor', 'svb_erase_range', 'sv_inlined', 'sv_inline_capacity', 'svb_unchecked_calculate_new_capacity']
+N0_QUICK = ['sv_ctor__psv', 'svb_append_element__pcE', 'svb_append_copies', 'svb_shrink_to_size', 'svb_resize_with__ul_pcE', 'svb_move_assign_default__psvb', 'svb_move_assign__psvb', 'svb_swap__psvb', 'svb_ctor__psvb', 'svb_ctor__ul_pcE_pcA', 'svb_dtor', 'svb_erase_range', 'sv_inlined', 'sv_inline_capacity', 'svb_unchecked_calculate_new_capacity']
 # proved in the N = 0 class (the remaining functions hit CBMC's C semantics of null-pointer relations, see DESIGN.md 12.2)
-N0_ALL = ['ai_default_uninitialized_copy__FI_FI_pE', 'ai_default_uninitialized_copy__mpE_mpE_pE', 'ai_default_uninitialized_copy__pcE_pcE_pE', 'ai_default_uninitialized_value_construct', 'ai_destroy_range__pE_pE', 'ai_external_range_length__FI_FI', 'ai_external_range_length__pcE_pcE', 'ai_uninitialized_fill__pE_pE_pcE', 'sv_append__pcE_pcE', 'sv_assign__ul_pcE', 'sv_at__ul', 'sv_at__ul_c', 'sv_back__v', 'sv_begin__v', 'sv_capacity', 'sv_cbegin', 'sv_cend', 'sv_clear', 'sv_data__v', 'sv_emplace_back__pcE', 'sv_empty', 'sv_end__v', 'sv_erase__svcit', 'sv_front__v', 'sv_get_allocator', 'sv_inlinable', 'sv_inline_capacity', 'sv_inlined', 'sv_max_size', 'sv_op_index__ul', 'sv_pop_back', 'sv_push_back__pE', 'sv_push_back__pcE', 'sv_reserve', 'sv_resize__ul', 'sv_resize__ul_pcE', 'sv_shrink_to_fit', 'sv_size', 'svb_append_copies', 'svb_append_element__pE', 'svb_append_element__pcE', 'svb_append_range__strong_pcE_pcE', 'svb_assign_with_copies', 'svb_assign_with_range__pcE_pcE', 'svb_copy_assign__pcsvb', 'svb_copy_assign_default__pcsvb', 'svb_ctor__pcA', 'svb_ctor__pcE_pcE_pcA', 'svb_ctor__pcsvb_pcA', 'svb_ctor__psvb', 'svb_ctor__ul_pcA', 'svb_ctor__ul_pcE_pcA', 'svb_dtor', 'svb_emplace_into_current__pE_pE', 'svb_emplace_into_current__pE_pcE', 'svb_erase_all', 'svb_erase_at', 'svb_erase_last', 'svb_erase_range', 'svb_insert_copies', 'svb_move_assign__psvb', 'svb_move_assign__psvb', 'svb_move_assign_default__psvb', 'svb_move_assign_unequal_no_propagate__psvb', 'svb_move_left__pE_pE_pE', 'svb_resize_with__ul', 'svb_resize_with__ul', 'svb_resize_with__ul_pcE', 'svb_resize_with__ul_pcE', 'svb_shift_into_uninitialized', 'svb_shift_into_uninitialized', 'svb_shrink_to_size', 'svb_swap__psvb', 'svb_swap__psvb', 'svb_swap_default', 'svb_swap_unequal_no_propagate', 'svb_unchecked_calculate_new_capacity', 'svb_unchecked_calculate_new_capacity']
+N0_ALL = ['sv_ctor__psv', 'sv_assign__psv', 'sv_op_assign__psv', 'sv_swap', 'sv_ctor__pcA', 'ai_default_uninitialized_copy__FI_FI_pE', 'ai_default_uninitialized_copy__mpE_mpE_pE', 'ai_default_uninitialized_copy__pcE_pcE_pE', 'ai_default_uninitialized_value_construct', 'ai_destroy_range__pE_pE', 'ai_external_range_length__FI_FI', 'ai_external_range_length__pcE_pcE', 'ai_uninitialized_fill__pE_pE_pcE', 'sv_append__pcE_pcE', 'sv_assign__ul_pcE', 'sv_at__ul', 'sv_at__ul_c', 'sv_back__v', 'sv_begin__v', 'sv_capacity', 'sv_cbegin', 'sv_cend', 'sv_clear', 'sv_data__v', 'sv_emplace_back__pcE', 'sv_empty', 'sv_end__v', 'sv_erase__svcit', 'sv_front__v', 'sv_get_allocator', 'sv_inlinable', 'sv_inline_capacity', 'sv_inlined', 'sv_max_size', 'sv_op_index__ul', 'sv_pop_back', 'sv_push_back__pE', 'sv_push_back__pcE', 'sv_reserve', 'sv_resize__ul', 'sv_resize__ul_pcE', 'sv_shrink_to_fit', 'sv_size', 'svb_append_copies', 'svb_append_element__pE', 'svb_append_element__pcE', 'svb_append_range__strong_pcE_pcE', 'svb_assign_with_copies', 'svb_assign_with_range__pcE_pcE', 'svb_copy_assign__pcsvb', 'svb_copy_assign_default__pcsvb', 'svb_ctor__pcA', 'svb_ctor__pcE_pcE_pcA', 'svb_ctor__pcsvb_pcA', 'svb_ctor__psvb', 'svb_ctor__ul_pcA', 'svb_ctor__ul_pcE_pcA', 'svb_dtor', 'svb_emplace_into_current__pE_pE', 'svb_emplace_into_current__pE_pcE', 'svb_erase_all', 'svb_erase_at', 'svb_erase_last', 'svb_erase_range', 'svb_insert_copies', 'svb_move_assign__psvb', 'svb_move_assign__psvb', 'svb_move_assign_default__psvb', 'svb_move_assign_unequal_no_propagate__psvb', 'svb_move_left__pE_pE_pE', 'svb_resize_with__ul', 'svb_resize_with__ul', 'svb_resize_with__ul_pcE', 'svb_resize_with__ul_pcE', 'svb_shift_into_uninitialized', 'svb_shift_into_uninitialized', 'svb_shrink_to_size', 'svb_swap__psvb', 'svb_swap__psvb', 'svb_swap_default', 'svb_swap_unequal_no_propagate', 'svb_unchecked_calculate_new_capacity', 'svb_unchecked_calculate_new_capacity']
 # data () is the null pointer when empty: p + 0 and p - p on it are defined in C++ but are flagged by CBMC's C semantics,
 # so the object-bounds check of pointer arithmetic is dropped in this class (element accesses stay checked through w_ok/r_ok)
 add(_c('n0', N=0, only=N0_QUICK, facts=dict(_PF), drop_checks=['--pointer-overflow-check']))
@@ -82,7 +82,7 @@ add(_c('triv_na', tu='cfg_na.cpp', defines=['NDEBUG', 'VT_TRIVIAL', 'VT_NO_ASSIG
 CE_ONLY = ['svb_append_element__pcE', 'svb_append_element__pE', 'svb_append_copies', 'svb_request_capacity', 'svb_shrink_to_size',
            'svb_emplace_into_current__pE_pcE', 'svb_emplace_into_current__pE_pE', 'svb_emplace_into_reallocation__pE_pcE',
            'svb_insert_copies', 'svb_erase_range', 'svb_erase_at', 'svb_erase_last', 'svb_erase_all', 'svb_erase_to_end',
-           'svb_resize_with__ul', 'svb_resize_with__ul_pcE', 'svb_append_range__strong_pcE_pcE', 'svb_move_left__pE_pE_pE', 'svb_move_right__pE_pE_pE',
+           'svb_resize_with__ul', 'svb_resize_with__ul_pcE', 'svb_append_range__strong_pcE_pcE', 'svb_move_left__pE_pE_pE',
            'svb_shift_into_uninitialized', 'svb_unchecked_calculate_new_capacity', 'svb_assign_with_copies', 'svb_assign_with_range__pcE_pcE',
            'ai_external_range_length__pcE_pcE', 'ai_external_range_length__FI_FI', 'svb_dtor', 'svb_ctor__ul_pcE_pcA', 'svb_ctor__ul_pcA', 'svb_ctor__pcA', 'svb_ctor__pcE_pcE_pcA']
 _NOTHROW = {'COPY_MAY_THROW': 0, 'DEFAULT_MAY_THROW': 0, 'ASSIGN_COPY_MAY_THROW': 0, 'ALLOC_MAY_THROW': 0, 'ITER_MAY_THROW': 0}
@@ -172,7 +172,14 @@ QUICK = {
                       'svb_request_capacity', 'ai_external_range_length__pcE_pcE', 'sv_erase__svcit', 'sv_push_back__pcE', 'svb_ctor__ul_pcE_pcA'],
             'std17': ['svb_append_element__pcE', 'svb_emplace_into_current__pE_pcE', 'svb_shrink_to_size', 'svb_move_assign_default__psvb', 'svb_erase_range',
                       'svb_request_capacity', 'ai_external_range_length__pcE_pcE', 'sv_erase__svcit', 'sv_push_back__pcE', 'svb_ctor__ul_pcE_pcA']},
+    'C08': {'ce': ['svb_append_element__pcE', 'svb_emplace_into_current__pE_pcE', 'svb_emplace_into_current__pE_pE', 'svb_shrink_to_size', 'svb_request_capacity', 'svb_erase_range',
+                   'svb_dtor', 'svb_ctor__pcA', 'svb_ctor__ul_pcE_pcA', 'svb_move_left__pE_pE_pE', 'svb_assign_with_copies'],
+            'ce_triv': ['svb_append_element__pcE', 'svb_emplace_into_current__pE_pcE', 'svb_erase_range', 'svb_append_range__strong_pcE_pcE', 'svb_assign_with_range__pcE_pcE',
+                        'svb_move_left__pE_pE_pE', 'svb_ctor__pcE_pcE_pcA', 'svb_resize_with__ul']},
     'C15': {'main': ['ai_external_range_length__FI_FI', 'ai_default_uninitialized_copy__FI_FI_pE', 'svb_append_range__strong_FI_FI', 'ai_external_range_length__pcE_pcE']},
-    'C18': {'pair_gt': ['svb_ctor__psvbM'], 'pair_lt': ['svb_ctor__psvbM'], 'main': ['ai_external_range_length__FI_FI', 'ai_destroy_range__pE_pE', 'svb_erase_last', 'svb_erase_all', 'svb_erase_to_end', 'svb_dtor', 'svb_ctor__pcA', 'svb_ctor__psvb',
+    'C18': {'pair_gt': ['svb_ctor__psvbM'], 'pair_lt': ['svb_ctor__psvbM'],
+            'pocs': ['sv_op_assign__psv', 'sv_swap'], 'pocma': ['sv_op_assign__psv', 'sv_assign__psv', 'sv_swap'], 'aeq': ['sv_op_assign__psv', 'sv_swap'],
+            'tmove': ['sv_ctor__psv', 'sv_op_assign__psv'], 'n0': ['sv_ctor__psv'],
+            'main': ['sv_ctor__pcA', 'sv_ctor__psv', 'sv_op_assign__psv', 'sv_assign__psv', 'sv_swap', 'sv_get_allocator', 'sv_max_size', 'sv_empty', 'ai_external_range_length__FI_FI', 'ai_destroy_range__pE_pE', 'svb_erase_last', 'svb_erase_all', 'svb_erase_to_end', 'svb_dtor', 'svb_ctor__pcA', 'svb_ctor__psvb',
                      'svb_move_assign_default__psvb', 'svb_swap_default', 'sv_size', 'sv_capacity', 'sv_clear', 'sv_pop_back', 'svb_erase_range', 'svb_emplace_into_current__pE_pE']},
 }
